@@ -143,8 +143,14 @@ func runC11(c *Ctx) {
 		pids := c.Field("actor", "tree", "pids")
 		errExists := c.pkg("actor").Types.Scope().Lookup("errNodeAlreadyExists")
 		var existsObj types.Object
+		// the lookup of the ID that is inserted: same key variable as the map write (the other lookup is the parent's)
+		var insKey types.Object
+		for _, a := range f.Find(func(n ast.Node) bool { _, _, ok := isMapWrite(info, n, pids); return ok }) {
+			k, _, _ := isMapWrite(info, a.N, pids)
+			insKey = objOf(info, k)
+		}
 		for _, a := range f.Find(func(n ast.Node) bool { _, _, _, ok := commaOkLookup(info, n, pids); return ok }) {
-			if _, okObj, _, _ := commaOkLookup(info, a.N, pids); okObj != nil && okObj.Name() == "exists" {
+			if key, okObj, _, _ := commaOkLookup(info, a.N, pids); okObj != nil && insKey != nil && objOf(info, key) == insKey {
 				existsObj = okObj
 			}
 		}
